@@ -1489,7 +1489,9 @@ pub mod verif_hooks {
     /// returns what `File::deps` reports after each step.
     ///
     /// Steps: declare `s1` (modified) and `s2` (created) for target `t`;
-    /// `zap_deps1`; re-declare `s1`; `zap_deps2`.
+    /// `zap_deps1`; re-declare `s1`; `zap_deps2`.  Then `zap_deps1`, declare
+    /// `s1` as created, (snapshot) `zap_deps2` (snapshot); `zap_deps1`,
+    /// declare `s1` as modified, `zap_deps2` (snapshot).
     pub fn deps_probe() -> Result<Vec<Vec<DepRow>>, RedoError> {
         let cwd = std::env::current_dir().map_err(RedoError::opaque_error)?;
         std::env::set_var("REDO", "1");
@@ -1530,6 +1532,16 @@ pub mod verif_hooks {
         out.push(snap(&t, &ptx)?);
         t.add_dep(&mut ptx, DepMode::Modified, "s1")?;
         out.push(snap(&t, &ptx)?);
+        t.zap_deps2(&mut ptx)?;
+        out.push(snap(&t, &ptx)?);
+        // the same pair declared again with the other mode, in a later build
+        t.zap_deps1(&mut ptx)?;
+        t.add_dep(&mut ptx, DepMode::Created, "s1")?;
+        out.push(snap(&t, &ptx)?);
+        t.zap_deps2(&mut ptx)?;
+        out.push(snap(&t, &ptx)?);
+        t.zap_deps1(&mut ptx)?;
+        t.add_dep(&mut ptx, DepMode::Modified, "s1")?;
         t.zap_deps2(&mut ptx)?;
         out.push(snap(&t, &ptx)?);
         Ok(out)
